@@ -31,7 +31,7 @@ func (d *directivesAreInValidLocationsVisitor) EnterDocument(operation, definiti
 func (d *directivesAreInValidLocationsVisitor) EnterDirective(ref int) {
 
 	directiveName := d.operation.DirectiveNameBytes(ref)
-	definition, exists := d.definition.Index.FirstNodeByNameBytes(directiveName)
+	definition, exists := d.definition.Index.FirstDirectiveDefinitionByNameBytes(directiveName)
 
 	if !exists || definition.Kind != ast.NodeKindDirectiveDefinition {
 		return // not defined, skip
